@@ -1,7 +1,6 @@
 package props
 
 import (
-	"go/ast"
 	"go/token"
 	"go/types"
 	"strings"
@@ -121,31 +120,33 @@ func runC11(c *Ctx) {
 			c.Check(FuncKey(merge)+"::"+f, merge.Pos(), ok && got == f+","+f, "Config.%s must be merged as mergeLists(receiver.%s, argument.%s): the receiver is the outer configuration whose list 'inherit' splices in (found: %q)", f, f, f, got)
 		}
 		normalised := map[string]string{}
-		Instrs(load, false, func(in ssa.Instruction) {
-			st, ok := in.(*ssa.Store)
-			if !ok {
-				return
-			}
-			fa, ok := st.Addr.(*ssa.FieldAddr)
-			if !ok {
-				return
-			}
-			owner, f := FieldOf(fa.X.Type(), fa.Field)
-			if f == nil || !strings.HasSuffix(owner, "config.Config") {
-				return
-			}
-			call, ok := st.Val.(*ssa.Call)
-			if !ok || !IsCallTo(call, configPkg+".normalizeList") {
-				return
-			}
-			for x := range BackSlice(call.Call.Args[0], SliceOpts{NoMemory: true}) {
-				if fa2, ok := x.(*ssa.FieldAddr); ok {
-					if o2, f2 := FieldOf(fa2.X.Type(), fa2.Field); f2 != nil && strings.HasSuffix(o2, "config.Config") {
-						normalised[f.Name()] = f2.Name()
+		for _, lf := range DeepFuncs(load, 2) {
+			Instrs(lf, false, func(in ssa.Instruction) {
+				st, ok := in.(*ssa.Store)
+				if !ok {
+					return
+				}
+				fa, ok := st.Addr.(*ssa.FieldAddr)
+				if !ok {
+					return
+				}
+				owner, f := FieldOf(fa.X.Type(), fa.Field)
+				if f == nil || !strings.HasSuffix(owner, "config.Config") {
+					return
+				}
+				call, ok := st.Val.(*ssa.Call)
+				if !ok || !IsCallTo(call, configPkg+".normalizeList") {
+					return
+				}
+				for x := range BackSlice(call.Call.Args[0], SliceOpts{NoMemory: true}) {
+					if fa2, ok := x.(*ssa.FieldAddr); ok {
+						if o2, f2 := FieldOf(fa2.X.Type(), fa2.Field); f2 != nil && strings.HasSuffix(o2, "config.Config") {
+							normalised[f.Name()] = f2.Name()
+						}
 					}
 				}
-			}
-		})
+			})
+		}
 		for _, f := range fields {
 			c.Check(FuncKey(load)+"::"+f, load.Pos(), normalised[f] == f, "Load must normalise Config.%s (and fail loudly on an unresolved 'inherit')", f)
 		}
@@ -211,25 +212,32 @@ func runC11(c *Ctx) {
 		c.Check(FuncKey(pc)+"::default-appended-after-walk", pc.Pos(), appDefault != nil && walkStat != nil && !ReachesFrom(pc, appDefault, walkStat), "the default configuration is appended once, after all staticcheck.conf files from the package directory up to the root have been collected (innermost first)")
 		// reversal: a block that stores into out[i] and out[len-1-i]
 		reversed := false
+		for _, ci := range CallsTo(pc, false, "slices.Reverse") {
+			if appDefault != nil && ReachesFrom(pc, appDefault, ci) {
+				reversed = true
+			}
+		}
+		// or a loop of pairwise exchanges: out[a], out[b] = out[b], out[a] with two different indices
 		for _, b := range pc.Blocks {
-			var idx []ssa.Value
+			type elemStore struct{ dst, src ssa.Value }
+			var sts []elemStore
 			for _, in := range b.Instrs {
-				if st, ok := in.(*ssa.Store); ok {
-					if ia, ok := st.Addr.(*ssa.IndexAddr); ok {
-						idx = append(idx, ia.Index)
+				st, ok := in.(*ssa.Store)
+				if !ok {
+					continue
+				}
+				ia, ok := st.Addr.(*ssa.IndexAddr)
+				if !ok {
+					continue
+				}
+				if u, ok := st.Val.(*ssa.UnOp); ok && u.Op == token.MUL {
+					if ib, ok := u.X.(*ssa.IndexAddr); ok && AccessPath(ib.X) == AccessPath(ia.X) {
+						sts = append(sts, elemStore{ia.Index, ib.Index})
 					}
 				}
 			}
-			if len(idx) >= 2 {
-				hasSub, hasPlain := false, false
-				for _, i := range idx {
-					if bo, ok := i.(*ssa.BinOp); ok && bo.Op == token.SUB {
-						hasSub = true
-					} else {
-						hasPlain = true
-					}
-				}
-				if hasSub && hasPlain && appDefault != nil && ReachesFrom(pc, appDefault, b.Instrs[0]) {
+			if len(sts) == 2 && SameExpr(sts[0].dst, sts[1].src) && SameExpr(sts[1].dst, sts[0].src) && !SameExpr(sts[0].dst, sts[0].src) {
+				if appDefault != nil && ReachesFrom(pc, appDefault, b.Instrs[0]) && ReachesFrom(pc, b.Instrs[0], b.Instrs[0]) {
 					reversed = true
 				}
 			}
@@ -270,9 +278,20 @@ func runC11(c *Ctx) {
 	c.Rule("R11.3", func() {
 		c.Floor("R11.3", 6)
 		// numErrors: the phi/variable incremented on the shouldExit edge
+		isFailSetLookup := func(l *ssa.Lookup) bool {
+			return strings.Contains(l.X.Type().String(), "caseFoldedString]bool") && Derives(l.Index, IsFieldOf("runner.Diagnostic", "Category"))
+		}
 		shouldExit := CondEdges(pd, func(cond ssa.Value) (bool, bool) {
-			l, ok := cond.(*ssa.Lookup)
-			return ok && !l.CommaOk && strings.Contains(l.X.Type().String(), "caseFoldedString]bool") && Derives(l.Index, IsFieldOf("runner.Diagnostic", "Category")), true
+			if l, ok := cond.(*ssa.Lookup); ok && !l.CommaOk {
+				return isFailSetLookup(l), true
+			}
+			// v, ok := shouldExit[k]; ok && v
+			if e, ok := cond.(*ssa.Extract); ok && e.Index == 0 {
+				if l, ok := e.Tuple.(*ssa.Lookup); ok && l.CommaOk {
+					return isFailSetLookup(l), true
+				}
+			}
+			return false, false
 		})
 		if len(shouldExit) == 0 {
 			c.Undecided("printDiagnostics no longer looks the problem's category up in the fail set")
@@ -284,10 +303,7 @@ func runC11(c *Ctx) {
 			if !ok || bo.Op != token.ADD {
 				return
 			}
-			if k, isK := ConstInt(bo.Y); !isK || k != 1 {
-				return
-			}
-			if _, isPhi := bo.X.(*ssa.Phi); !isPhi {
+			if _, ok := incOperand(bo); !ok {
 				return
 			}
 			if ok, _ := MustPassEdges(pd, bo, shouldExit); ok {
@@ -297,23 +313,22 @@ func runC11(c *Ctx) {
 		if errInc == nil {
 			c.Undecided("no counter is incremented on the 'category is in the fail set' edge")
 		}
-		counter := errInc.X.(*ssa.Phi)
+		counter, _ := incOperand(errInc)
 		// every increment of that counter is under shouldExit and after the ignored filter
-		ignoredOut := CondEdges(pd, func(cond ssa.Value) (bool, bool) {
-			// diag.Severity == severityIgnored (possibly && !showIgnored): the not-equal edge
-			bo, ok := cond.(*ssa.BinOp)
-			if !ok || bo.Op != token.EQL {
-				return false, false
-			}
-			return Derives(bo.X, IsFieldOf("lintcmd.diagnostic", "Severity")), false
-		})
+		// diag.Severity == severityIgnored (possibly && !showIgnored), in any spelling: the not-equal edge
+		ignoredOut := ComplementEdges(EqEdges(pd, func(x, y ssa.Value) bool {
+			return Derives(x, IsFieldOf("lintcmd.diagnostic", "Severity"))
+		}))
 		showIgnored := CondEdges(pd, func(cond ssa.Value) (bool, bool) {
 			return DerivesLocal(cond, func(v ssa.Value) bool { return IsFieldOf("", "showIgnored")(v) }), true
 		})
 		filt := UnionEdges(ignoredOut, showIgnored)
 		Instrs(pd, false, func(in ssa.Instruction) {
 			bo, ok := in.(*ssa.BinOp)
-			if !ok || bo.Op != token.ADD || bo.X != ssa.Value(counter) {
+			if !ok || bo.Op != token.ADD {
+				return
+			}
+			if x, isInc := incOperand(bo); !isInc || x != counter {
 				return
 			}
 			ok1, p1 := MustPassEdges(pd, bo, shouldExit)
@@ -322,10 +337,7 @@ func runC11(c *Ctx) {
 			c.Check(FuncKey(pd)+"::error-counted::only-if-not-ignored", bo.Pos(), ok2 && len(ignoredOut) > 0, "ignored problems are removed before counting; path: %s", PathString(pd, p2))
 		})
 		// non-zero status 1 only under counter > 0 and not SARIF
-		errPos := CmpEdges(pd, func(x, y ssa.Value) bool {
-			k, ok := ConstInt(y)
-			return ok && k == 0 && x == ssa.Value(counter)
-		}, func(rel string, truth bool) bool { return (rel == ">" && truth) || (rel == "<=" && !truth) })
+		errPos := IntCmpConstEdges(pd, func(v ssa.Value) bool { return v == ssa.Value(counter) }, true, func(lo, hi int64) bool { return lo >= 1 })
 		notSarif := CondEdges(pd, func(cond ssa.Value) (bool, bool) {
 			e, ok := cond.(*ssa.Extract)
 			if !ok || e.Index != 1 {
@@ -334,32 +346,54 @@ func runC11(c *Ctx) {
 			ta, ok := e.Tuple.(*ssa.TypeAssert)
 			return ok && strings.HasSuffix(ta.AssertedType.String(), "lintcmd.sarifFormatter"), false
 		})
-		n1 := 0
-		for _, r := range Returns(pd) {
-			k, ok := ConstInt(r.Results[0])
-			if !ok {
-				c.Check(FuncKey(pd)+"::exit-status::constant", r.Pos(), false, "printDiagnostics returns a computed status")
-				continue
+		// the statuses printDiagnostics can return, each with the instruction that selects it: a constant
+		// return, or the constant that reaches a returned status variable from one predecessor
+		type statusSite struct {
+			k  int64
+			at ssa.Instruction
+		}
+		var sites []statusSite
+		computed := false
+		var expand func(v ssa.Value, at ssa.Instruction, depth int)
+		expand = func(v ssa.Value, at ssa.Instruction, depth int) {
+			if k, ok := ConstInt(v); ok {
+				sites = append(sites, statusSite{k, at})
+				return
 			}
-			if k != 1 {
+			if phi, ok := v.(*ssa.Phi); ok && depth < 3 {
+				for i, e := range phi.Edges {
+					pred := phi.Block().Preds[i]
+					expand(e, pred.Instrs[len(pred.Instrs)-1], depth+1)
+				}
+				return
+			}
+			computed = true
+		}
+		for _, r := range Returns(pd) {
+			expand(r.Results[0], r, 0)
+		}
+		c.Check(FuncKey(pd)+"::exit-status::constant", pd.Pos(), !computed, "printDiagnostics returns one of a fixed set of constant statuses")
+		n1 := 0
+		for _, st := range sites {
+			if st.k != 1 {
 				continue
 			}
 			n1++
-			ok1, p1 := MustPassEdges(pd, r, errPos)
-			c.Check(FuncKey(pd)+"::exit-status::1-only-with-counted-errors", r.Pos(), ok1 && len(errPos) > 0, "exit status 1 only if at least one error was counted; path: %s", PathString(pd, p1))
-			ok2, p2 := MustPassEdges(pd, r, notSarif)
-			c.Check(FuncKey(pd)+"::exit-status::never-1-for-SARIF", r.Pos(), ok2 && len(notSarif) > 0, "SARIF output always exits zero; path: %s", PathString(pd, p2))
+			ok1, p1 := MustPassEdges(pd, st.at, errPos)
+			c.Check(FuncKey(pd)+"::exit-status::1-only-with-counted-errors", st.at.Pos(), ok1 && len(errPos) > 0, "exit status 1 only if at least one error was counted; path: %s", PathString(pd, p1))
+			ok2, p2 := MustPassEdges(pd, st.at, notSarif)
+			c.Check(FuncKey(pd)+"::exit-status::never-1-for-SARIF", st.at.Pos(), ok2 && len(notSarif) > 0, "SARIF output always exits zero; path: %s", PathString(pd, p2))
 		}
 		if n1 == 0 {
 			c.Check(FuncKey(pd)+"::exit-status::1-exists", pd.Pos(), false, "printDiagnostics never returns 1")
 		}
 		// with counted errors and a non-SARIF formatter the status is not 0
-		for _, r := range Returns(pd) {
-			if k, ok := ConstInt(r.Results[0]); ok && k == 0 {
-				// a zero return must not be reachable through both the errPos and notSarif edges
-				t1, _ := MustPassEdges(pd, r, errPos)
-				t2, _ := MustPassEdges(pd, r, notSarif)
-				c.Check(FuncKey(pd)+"::exit-status::0-not-with-errors", r.Pos(), !(t1 && t2), "exit status 0 must not be returned on the path that has counted errors and a non-SARIF formatter")
+		for _, st := range sites {
+			if st.k == 0 {
+				// a zero status must not be selected on a path through both the errPos and notSarif edges
+				t1, _ := MustPassEdges(pd, st.at, errPos)
+				t2, _ := MustPassEdges(pd, st.at, notSarif)
+				c.Check(FuncKey(pd)+"::exit-status::0-not-with-errors", st.at.Pos(), !(t1 && t2), "exit status 0 must not be returned on the path that has counted errors and a non-SARIF formatter")
 			}
 		}
 		// compile / config / staticcheck always fail
@@ -369,8 +403,11 @@ func runC11(c *Ctx) {
 			if !ok || !isBoolConst(mu.Value, true) {
 				return
 			}
-			if call, ok := mu.Key.(*ssa.Call); ok && IsCallTo(call, lintcmdPkg+".makeCaseFoldedString") {
-				if s, ok := constStringVal(call.Call.Args[0]); ok {
+			if !strings.Contains(mu.Map.Type().String(), "caseFoldedString]bool") {
+				return
+			}
+			for x := range BackSlice(mu.Key, SliceOpts{ThroughCalls: true}) {
+				if s, ok := constStringVal(x); ok {
 					always[s] = true
 				}
 			}
@@ -401,62 +438,75 @@ func runC11(c *Ctx) {
 				continue
 			}
 			n++
-			fd, fp := c.Decl("lintcmd", name+".Format")
-			// the loop over the diagnostics parameter: no continue / return that skips an element, no if around the whole body
-			var diagParam types.Object
-			if ps := fd.Type.Params.List; len(ps) >= 2 && len(ps[1].Names) > 0 {
-				diagParam = fp.TypesInfo.ObjectOf(ps[1].Names[0])
+			fn := c.Func("lintcmd", name+".Format")
+			if fn.Signature.Recv() != nil && len(fn.Params) < 3 {
+				continue
+			}
+			// the problems: the last parameter; its elements are loaded somewhere in a loop (range or index loop,
+			// possibly through a local copy of the slice)
+			diags := fn.Params[len(fn.Params)-1]
+			var elems []*ssa.UnOp
+			for _, f := range DeepFuncs(fn, 0) {
+				Instrs(f, false, func(in ssa.Instruction) {
+					u, ok := in.(*ssa.UnOp)
+					if !ok || u.Op != token.MUL {
+						return
+					}
+					if ia, ok := u.X.(*ssa.IndexAddr); ok && DerivesLocal(ia.X, func(v ssa.Value) bool { return v == ssa.Value(diags) }) && f == fn {
+						elems = append(elems, u)
+					}
+				})
 			}
 			skips := ""
-			loops := 0
-			ast.Inspect(fd.Body, func(x ast.Node) bool {
-				rs, ok := x.(*ast.RangeStmt)
-				if !ok {
-					return true
-				}
-				id, ok := ast.Unparen(rs.X).(*ast.Ident)
-				if !ok || fp.TypesInfo.ObjectOf(id) != diagParam {
-					return true
-				}
-				loops++
-				// top-level statements of the body: a continue/return/break anywhere not nested in an inner loop skips output
-				var walk func(n ast.Node, inner bool)
-				walk = func(n ast.Node, inner bool) {
-					ast.Inspect(n, func(y ast.Node) bool {
-						switch y := y.(type) {
-						case *ast.FuncLit:
-							return false
-						case *ast.RangeStmt, *ast.ForStmt:
-							if y != ast.Node(rs) {
-								// continue/break inside an inner loop refer to that loop
-								var body *ast.BlockStmt
-								if r2, ok := y.(*ast.RangeStmt); ok {
-									body = r2.Body
-								} else {
-									body = y.(*ast.ForStmt).Body
-								}
-								ast.Inspect(body, func(z ast.Node) bool {
-									if _, ok := z.(*ast.ReturnStmt); ok {
-										skips = c.PosStr(z.Pos())
-									}
-									return true
-								})
-								return false
+			for _, elem := range elems {
+				uses := func(in ssa.Instruction) bool {
+					fromElem := func(v ssa.Value) bool {
+						return Derives(v, func(x ssa.Value) bool { return x == ssa.Value(elem) })
+					}
+					switch x := in.(type) {
+					case ssa.CallInstruction:
+						for _, a := range CallArgs(x.Common()) {
+							if fromElem(a) {
+								return true
 							}
-						case *ast.BranchStmt:
-							if y.Tok == token.CONTINUE || y.Tok == token.BREAK || y.Tok == token.GOTO {
-								skips = c.PosStr(y.Pos())
-							}
-						case *ast.ReturnStmt:
-							skips = c.PosStr(y.Pos())
 						}
-						return true
-					})
+					case *ssa.Store:
+						// writing the problem into a local variable (the loop copy, a literal under
+						// construction) is not output yet; what is later done with that variable is
+						root := x.Addr
+						for {
+							switch r := root.(type) {
+							case *ssa.FieldAddr:
+								root = r.X
+								continue
+							case *ssa.IndexAddr:
+								root = r.X
+								continue
+							}
+							break
+						}
+						if _, local := root.(*ssa.Alloc); local {
+							return false
+						}
+						return fromElem(x.Val)
+					case *ssa.MapUpdate:
+						return fromElem(x.Value) || fromElem(x.Key)
+					case *ssa.Send:
+						return fromElem(x.X)
+					}
+					return false
 				}
-				walk(rs.Body, false)
-				return true
-			})
-			c.Check(lintcmdPkg+"."+name+".Format::renders-every-problem", fd.Pos(), loops >= 1 && skips == "", "a formatter must render every problem it is given (selection happens before, once, for all formats); this one can skip a problem at %s (loops over the problems: %d)", skips, loops)
+				t, path := PathAvoiding(fn, elem, func(in ssa.Instruction) bool {
+					if _, ok := in.(*ssa.Return); ok {
+						return true
+					}
+					return in == ssa.Instruction(elem)
+				}, uses, nil)
+				if t != nil {
+					skips = PathString(fn, path)
+				}
+			}
+			c.Check(lintcmdPkg+"."+name+".Format::renders-every-problem", fn.Pos(), len(elems) >= 1 && skips == "", "a formatter must render every problem it is given (selection happens before, once, for all formats): from loading a problem to the next iteration some output or accumulation must use it; path that drops a problem: %s (loops over the problems: %d)", skips, len(elems))
 		}
 		if n < 4 {
 			c.Undecided("found only %d formatter implementations", n)
@@ -618,4 +668,22 @@ func runC11(c *Ctx) {
 // reachesLoopAgain reports whether the instruction lies in a cycle of the CFG.
 func reachesLoopAgain(fn *ssa.Function, in ssa.Instruction) bool {
 	return ReachesFrom(fn, in, in)
+}
+
+// incOperand: for x+1 or 1+x with x a φ (a loop-carried counter) it returns x.
+func incOperand(bo *ssa.BinOp) (*ssa.Phi, bool) {
+	if bo.Op != token.ADD {
+		return nil, false
+	}
+	if k, ok := ConstInt(bo.Y); ok && k == 1 {
+		if phi, ok := bo.X.(*ssa.Phi); ok {
+			return phi, true
+		}
+	}
+	if k, ok := ConstInt(bo.X); ok && k == 1 {
+		if phi, ok := bo.Y.(*ssa.Phi); ok {
+			return phi, true
+		}
+	}
+	return nil, false
 }
